@@ -194,6 +194,10 @@ func setFloatFromBigInt(value *big.Int, dst reflect.Value) {
 		PanicErrorConverting(value, dst.Type(), err)
 	}
 	dst.SetFloat(v)
+	// The destination may be narrower than float64
+	if stored, accuracy := big.NewFloat(dst.Float()).Int(nil); accuracy != big.Exact || stored.Cmp(value) != 0 {
+		PanicCannotConvert(value, dst.Type())
+	}
 }
 
 func setFloatFromBigFloat(value *big.Float, dst reflect.Value) {
